@@ -18,6 +18,11 @@ import (
 
 type Ev struct{ ID int }
 
+// Event is an application-level event interface; Ev implements it.
+type Event interface{ EventID() int }
+
+func (e Ev) EventID() int { return e.ID }
+
 type H struct {
 	Ctx     bool   `json:"ctx,omitempty"`
 	Once    bool   `json:"once,omitempty"`
@@ -39,6 +44,10 @@ type Case struct {
 	// no handler is asynchronous - cancels that context just before it
 	// panics.  Nothing is left to skip, so the outcome must not change.
 	CancelLast bool `json:"cancel_last,omitempty"`
+	// Via: the static type the events are published through: "" = Ev itself,
+	// "any" = Publish[any], "iface" = Publish[Event] (an application event
+	// interface).  Handlers are found by the dynamic type either way.
+	Via string `json:"via,omitempty"`
 	// ambient configuration that must not change the outcome
 	Obs   bool `json:"obs,omitempty"`   // an Observability implementation is installed
 	Hooks bool `json:"hooks,omitempty"` // before/after publish hooks are installed
@@ -237,14 +246,27 @@ func run(c *Case) *vkit.Outcome {
 					o.Failf("", "publish %d: panic reached the publisher: %v", p, r)
 				}
 			}()
+			var ctx context.Context
 			if cancelLast {
-				ctx, cancel := context.WithCancel(context.Background())
+				c2, cancel := context.WithCancel(context.Background())
 				cancels.Store(p, cancel)
 				defer cancel()
-				eventbus.PublishContext(bus, ctx, Ev{p})
+				ctx = c2
 			} else if p%2 == 0 {
-				eventbus.PublishContext(bus, context.Background(), Ev{p})
-			} else {
+				ctx = context.Background()
+			}
+			switch {
+			case c.Via == "any" && ctx != nil:
+				eventbus.PublishContext[any](bus, ctx, Ev{p})
+			case c.Via == "any":
+				eventbus.Publish[any](bus, Ev{p})
+			case c.Via == "iface" && ctx != nil:
+				eventbus.PublishContext[Event](bus, ctx, Ev{p})
+			case c.Via == "iface":
+				eventbus.Publish[Event](bus, Ev{p})
+			case ctx != nil:
+				eventbus.PublishContext(bus, ctx, Ev{p})
+			default:
 				eventbus.Publish(bus, Ev{p})
 			}
 		}()
